@@ -67,16 +67,16 @@ class Gen:
             return "{ CONST_NAME } = %s()" % m, "const.name", m, "", []
         if form == "raw":
             m = self.marker()
-            return "r#type = %s()" % m, "type", m, "", []
+            return "r#type = %s()" % m, "r#type", m, "", []   # stringify! keeps the r# prefix in this tree
         if form == "short":
             m = self.marker()
-            return "v%d" % idx, "v%d" % idx, None, "", ["let v%d = %s();" % (idx, m)]
+            return "v%d" % idx, "v%d" % idx, m, "", ["let v%d = %s();" % (idx, m)]
         if form == "short_dbg":
             m = self.marker(sigil="?")
-            return "?v%d" % idx, "v%d" % idx, None, "?", ["let v%d = %s();" % (idx, m)]
+            return "?v%d" % idx, "v%d" % idx, m, "?", ["let v%d = %s();" % (idx, m)]
         if form == "short_disp":
             m = self.marker(sigil="%")
-            return "%%v%d" % idx, "v%d" % idx, None, "%", ["let v%d = %s();" % (idx, m)]
+            return "%%v%d" % idx, "v%d" % idx, m, "%", ["let v%d = %s();" % (idx, m)]
         if form == "empty":
             return "e%d = tracing::field::Empty" % idx, "e%d" % idx, None, "empty", []
         raise ValueError(form)
@@ -97,9 +97,12 @@ class Gen:
         self.n += 1
         fname = "fx_%s_%03d" % (kind, self.n)
         pre = []
+        eager = []
         fsrc, names, markers, sigils = [], [], [], []
         for i, form in enumerate(fields):
             src, nm, mk, sg, p = self.field(form, i)
+            if p and mk:
+                eager.append(mk)
             fsrc.append(src)
             names.append(nm)
             markers.append(mk)
@@ -119,7 +122,7 @@ class Gen:
             # enabled! takes field *names* only
             body_fields = ", ".join(n for n in names if n.isidentifier())
             names = [n for n in names if n.isidentifier()]
-            markers, sigils, pre, msrc, mmarkers = [], [], [], None, []
+            markers, sigils, pre, msrc, mmarkers, eager = [], [], [], None, [], []
         if braces and body_fields:
             body_fields = "{ " + body_fields + " }"
         if body_fields:
@@ -144,7 +147,7 @@ class Gen:
         self.fns.append(src)
         self.expect[fname] = dict(kind=kind, macro=macro, level=level, prefix=[k for k, _ in prefix],
                                   names=(["message"] if (msrc and kind == "event") else []) + names,
-                                  markers=markers, sigils=sigils, msg_markers=mmarkers, has_message=bool(msrc and kind == "event"),
+                                  markers=markers, sigils=sigils, eager=eager, msg_markers=mmarkers, has_message=bool(msrc and kind == "event"),
                                   target=dict(prefix).get("target"), name=dict(prefix).get("name"))
 
     def render(self, crate):
